@@ -6,6 +6,14 @@ ALL = ["C%02d" % i for i in range(1, 21)]
 
 # property -> (level, design_ref, engine, technique, level text, level note)
 CLAIMED = {
+ "C07": ("model_checking", "DESIGN.md §2 C07", "vp",
+   "explicit enumeration of operation sequences on real rings restored from memory snapshots, from every/wrap-critical start position, against a deque model",
+   "Real rings (five requested sizes around the page round-up, with and without semaphore, clean or pre-filled through the API with words equal to the ring's marker constants) are positioned at every word offset / all wrap-critical offsets; every operation sequence up to the stated depth over write, alloc+commit (11 lengths around 0 and S, two payloads), read, read into a too-small buffer, peek and reclaim is run and compared with a deque model; the must-accept rule of the capacity contract is checked on every write and refused operations must leave the complete ring image (header + data mapping) bit-identical.",
+   "Depth-bounded (see params); sizes limited to the listed five; positions are reached by public API calls; the ring's mappings are learnt from the wrapped mmap, no private fields are read."),
+ "C11": ("model_checking", "DESIGN.md §2 C11", "vp",
+   "explicit enumeration of write sequences on real overwrite rings with a full drain of a snapshot after every write",
+   "Real overwrite rings (three sizes, with/without semaphore, clean or pre-filled with marker-valued words) from wrap-critical and from every start position: every sequence of writes up to the stated depth over six lengths (tiny to exactly S) and two payloads; after every single write the ring image is saved, drained with qb_rb_chunk_read, compared with the newest-k suffix of the history (k >= 1 and k >= what the 16-byte-overhead rule guarantees) and restored.",
+   "Depth-bounded; the blackbox dump part of the statement is checked by the C15 harness (dump after every record) once built; sizes limited to the listed three."),
  "C17": ("model_checking", "DESIGN.md §2 C17", "vp",
    "bounded-exhaustive enumeration of operation histories on the real hashtable/skiplist/trie against a dictionary + notifier-registration model (stateless explorer)",
    "Every history up to the stated depth (from the empty map and from 30 seeded non-initial maps) over put/rm on eight colliding keys, full/prefix iteration, abandoned foreach, notifier add/delete and destroy is executed on each real map implementation through qbmap.h only; return values, get of every key, count, iteration order/content and the exact multiset of notifier calls are compared with the model after every step; ASan is an additional oracle.",
